@@ -2130,6 +2130,11 @@ func (m *Machine) processQueue() Result {
 			// TODO optimize: check sub ctxs also on canceled txs
 			verifPoint("pq.beforeSubs", m)
 			m.processSubscriptions(t)
+		} else if mut.QueueTick > 0 {
+			// canceled, but the queue tick has been processed
+			for _, ch := range m.subs.ProcessWhenQueue(m.queueTick) {
+				closeSafe(ch)
+			}
 		}
 
 		t.CleanCache()
